@@ -139,12 +139,12 @@ mut("C05", "dollar-loop-continue", "stutter", "unparsable $(...) spins",
                 }
             };
 
-            let output_txt''', '''                    println_stderr!("cicada: {}", e);
+            show_captured_stderr''', '''                    println_stderr!("cicada: {}", e);
                     continue;
                 }
             };
 
-            let output_txt'''))
+            show_captured_stderr'''))
 mut("C05", "job-loop-no-increment", "get_job_by_gid", "job lookup loop never advances",
     (S, '''                if x.gid == gid {
                     return Some(x);
@@ -550,8 +550,8 @@ mut("C11", "no-capture", "capture#", "substitution runs without capture",
      '''                    log!("run subcmd dollar: {:?}", &cmd);
                     let (term_given, cr) = core::run_pipeline(sh, &c, true, false, false);'''))
 mut("C11", "template-unescaped", "R11-1", "output used as replacement template",
-    (S, 'let to = format!("${{head}}{}${{tail}}", output_txt.replace("$", "$$"));',
-     'let to = format!("${{head}}{}${{tail}}", output_txt);'))
+    (S, 'let to = output_txt.replace("$", "$$");',
+     'let to = output_txt.to_string();'))
 mut("C11", "trim-again", "R11-5", "leading blanks of the output are stripped",
     (S, "let output_txt = cmd_result.stdout.trim_end_matches('\\n');", "let output_txt = cmd_result.stdout.trim();"))
 mut("C11", "spin-on-error", "R11-3", "unparsable $(...) spins",
@@ -560,12 +560,12 @@ mut("C11", "spin-on-error", "R11-3", "unparsable $(...) spins",
                 }
             };
 
-            let output_txt''', '''                    println_stderr!("cicada: {}", e);
+            show_captured_stderr''', '''                    println_stderr!("cicada: {}", e);
                     continue;
                 }
             };
 
-            let output_txt'''))
+            show_captured_stderr'''))
 mut("C11", "no-terminal-back", "R11-4", "terminal not given back after a substitution",
     (S, '''                    log!("run subcmd dollar: {:?}", &cmd);
                     let (term_given, cr) = core::run_pipeline(sh, &c, true, true, false);
@@ -876,7 +876,9 @@ mut("C14", "eoi-closes-if", "R14-7|grammar|EXP_IF|closing|KW_FI", "`fi` or the e
     ("src/parsers/grammar.pest", 'KW_FI = _{ "fi" ~ (NEWLINE | EOI) }', 'KW_FI = _{ "fi" ~ NEWLINE | EOI }'))
 mut("C11", "splice-pattern-anchored", "R11-9|shell::do_command_substitution_for_dollar|splice-anchored",
     "the splice pattern gets ^ and $ anchors",
-    (S, 'r"(?P<head>[^\\$]*)\\$\\(.+\\)(?P<tail>.*)"', 'r"^(?P<head>[^\\$]*)\\$\\(.+\\)(?P<tail>.*)$"'))
+    (S, """                r"\\$\\(([^()]+)\\)"
+            } else {""", """                r"^\\$\\(([^()]+)\\)$"
+            } else {"""))
 mut("C13", "whole-subst-guard-excludes-paren", "R13-5|shell::env_in_token|whole-substitution-guard",
     "the guard for a whole-token $(...) no longer admits `)` in the body",
     (S, """        || libs::re::re_contains(token, r"^\\$\\(.+\\)$")""", """        || libs::re::re_contains(token, r"^\\$\\([^\\)]+\\)$")"""))
@@ -1725,3 +1727,21 @@ mut("C10", "glue-without-delimiting", "R10-9|parsers::parser_line::parse_line|gl
             }
 """, """            }
 """))
+
+mut("C11", "extractor-greedy-only", "R11-13|shell::do_command_substitution_for_dollar|one-at-a-time",
+    "the command is picked with the widest match again",
+    (S, """            let ptn_cmd = if libs::re::re_contains(&line, r"\\$\\([^()]+\\)") {
+                r"\\$\\(([^()]+)\\)"
+            } else {
+                r"\\$\\((.+)\\)"
+            };""", """            let ptn_cmd = r"\\$\\((.+)\\)";"""))
+mut("C11", "substitution-stderr-dropped", "R11-14|shell::do_command_substitution_for_dollar|stderr-shown",
+    "the captured stderr of $(...) is not passed on",
+    (S, "            show_captured_stderr(&cmd_result);\n", ""))
+mut("C11", "function-output-trimmed", "R11-15|core::try_run_func|output-exact",
+    "the output of each command of a function body is trimmed",
+    ("src/core.rs", "            stdout.push_str(&cr.stdout);", "            stdout.push_str(cr.stdout.trim());"))
+mut("C11", "assignment-value-single-line", "R11-16|types::drain_env_tokens|multiline-value",
+    "the assignment recogniser no longer accepts a newline in the value",
+    (T, 'if !sep.is_empty() || !libs::re::re_contains(text, r"(?s)^([a-zA-Z0-9_]+)=(.*)$") {',
+     'if !sep.is_empty() || !libs::re::re_contains(text, r"^([a-zA-Z0-9_]+)=(.*)$") {'))
